@@ -110,7 +110,7 @@ abbrev CrashState := @CrashInv
     freed at its order (C02.put_refines), a frame recorded free is free. -/
 theorem recover_reestablishes (c : Cfg) (ok : CfgOk c) (m : Mem) (ci : CrashInv c m) (ht : m.trees.size = c.ntrees)
     (hss : m.slots.size = c.nslots) (habs : ∀ s, SlotAbsent m s) :
-    Runs m (initProg c .recover) (fun _ m' => UpperInv0 c (fun _ => False) m' ∧
+    Runs m (initProg c .recover) (fun _ m' => UpperInv0 c (fun _ => 0) m' ∧
       (∀ f, m'.allocated c.geom f = m.allocated c.geom f) ∧ (∀ h, m'.whole h = m.whole h)) :=
   init_recover_spec ok m ci ht hss habs
 
